@@ -4,8 +4,8 @@
    `hash` stands for SeaHash: "recorded content" reads "content with the recorded hash" (DESIGN.md §3). The listing of a files
    resource is GIVEN (`w_list`, a set of paths: `worlds_ok`); slice FS relates it to the tree. *)
 From Zinoma.Model Require Import Bytes Cfg Codec Incremental.
-From Zinoma.Proofs Require Import Codec CodecRoundtrip IncrementalKeys Incremental IncrementalCycle IncrementalPinned
-  IncrementalExamples.
+From Zinoma.Proofs Require Import Codec CodecRoundtrip IncrementalKeys Incremental IncrementalChanges IncrementalCycle
+  IncrementalPinned IncrementalExamples.
 
 (* a skip implies: a state file exists and decodes, the target declares inputs, and — for the input and for the output
    resources — the recorded file set equals the listed one, every listed file has the recorded mtime or the recorded
@@ -30,6 +30,45 @@ Proof. exact skip_after_recorded_success. Qed.
 (* the absence of a record forces the script to run *)
 Theorem C02_no_record_runs : forall hash w input output, decide_skip hash w None input output = false.
 Proof. exact no_record_runs. Qed.
+
+(* the changes the property names, each forcing the script to run (contrapositives of C02_skip_sound; `e` is the decoded record):
+   a file listed now that was not recorded (added / new name of a renamed file) *)
+Theorem C02_added_file_runs : forall hash w bs e rest input output,
+  worlds_ok w input output -> dec_env bs = Some (e, rest) ->
+  forall p, In p (w_list w (r_files input)) -> ~ In (pkey p) (keys pkey (rs_fs (es_input e))) ->
+  decide_skip hash w (Some bs) input output = false.
+Proof. exact added_input_file_runs. Qed.
+
+(* a recorded file that is not listed any more (removed / old name of a renamed file) *)
+Theorem C02_removed_file_runs : forall hash w bs e rest input output,
+  worlds_ok w input output -> dec_env bs = Some (e, rest) ->
+  forall k, In k (keys pkey (rs_fs (es_input e))) -> ~ In k (map pkey (w_list w (r_files input))) ->
+  decide_skip hash w (Some bs) input output = false.
+Proof. exact removed_input_file_runs. Qed.
+
+(* a listed file with another mtime AND another content hash than recorded (rewritten) *)
+Theorem C02_rewritten_file_runs : forall hash w bs e rest input output,
+  worlds_ok w input output -> dec_env bs = Some (e, rest) ->
+  forall p m h m' c,
+  In p (w_list w (r_files input)) -> alookup path_eqb p (rs_fs (es_input e)) = Some (m, h) ->
+  w_mtime w p = Some m' -> m' <> m -> w_read w p = Some c -> hash c <> h ->
+  decide_skip hash w (Some bs) input output = false.
+Proof. exact rewritten_input_file_runs. Qed.
+
+(* a declared command that prints something else than the recorded text, or fails *)
+Theorem C02_changed_command_runs : forall hash w bs e rest input output,
+  worlds_ok w input output -> dec_env bs = Some (e, rest) ->
+  forall c, In c (r_cmds input) ->
+  w_cmd w (cr_cmd c) (cr_dir c) <> alookup ckey_eqb (cr_cmd c, cr_dir c) (rs_cmd (es_input e)) ->
+  decide_skip hash w (Some bs) input output = false.
+Proof. exact changed_command_runs. Qed.
+
+(* the same on the output side: a record without output state, or whose output state does not match the declared outputs *)
+Theorem C02_changed_output_runs : forall hash w bs e rest input output,
+  worlds_ok w input output -> dec_env bs = Some (e, rest) ->
+  forall o, output = Some o -> (forall ro, es_output e = Some ro -> ~ res_matches hash w ro o) ->
+  decide_skip hash w (Some bs) input output = false.
+Proof. exact changed_output_runs. Qed.
 
 (* pinned code (DESIGN.md §7 D6): command outputs keyed by the command text only — the same text declared in two directories,
    one output changes to the other's value, the build is skipped *)
